@@ -61,7 +61,8 @@ Theorem C08_depth : forall decompress ft v2 cmp stream,
   c_depth (snd (decode decompress ft v2 cmp stream)) <= DEPTH_LIMIT.
 Proof. exact decode_depth. Qed.
 
-(* "does not overflow the stack": the stack predicted from the recursion depth (measured constants, see
+(* an arithmetical COROLLARY of C08_depth (not counted as a theorem of its own in the manifest):
+   "does not overflow the stack": the stack predicted from the recursion depth (measured constants, see
    Model/FrameCustom.v) is at most STACK_LIMIT = 16 KiB + 257 * 1.5 KiB < 512 KiB for every input; the tie
    compares every input's measured high-water mark with the prediction for that input *)
 Theorem C08_stack : forall decompress ft v2 cmp stream,
@@ -69,7 +70,8 @@ Theorem C08_stack : forall decompress ft v2 cmp stream,
 Proof. exact decode_stack. Qed.
 
 (* the fuel of the counted loops, of the type parsers and of the custom-type string parser is never
-   exhausted: the model is the decoder on ALL inputs, not on those for which some fuel suffices *)
+   exhausted: [decode] is total without the help of fuel (it still declines, EUnmodelled, on non-ASCII
+   custom-type strings; the small loops of the tablet / chunk / tuple models are not covered) *)
 Theorem C08_fuel_enough : forall decompress ft v2 cmp stream st,
   fst (decode decompress ft v2 cmp stream) <> OErr st EOutOfFuel.
 Proof. exact (fun d => decode_no_oof parse_custom d parse_custom_noof). Qed.
